@@ -150,3 +150,10 @@ func verifHeapRemove(i int) *tssItem { return heap.Remove(&tssQ, i).(*tssItem) }
 //@   ensures recorded: found(clientID, ntp.Time64FromTime(rxt)) && !norecord(clientID, ntp.Time64FromTime(rxt), ntp.Time64FromTime(*txt)) ==> inmap(tss, clientID) && tss[clientID] == old(tss[clientID]) && tss[clientID].len == old(tss[clientID].len) && forall(j, 0, tss[clientID].len, tss[clientID].buf[j].rxt == old(tss[clientID].buf[j].rxt) && (tss[clientID].buf[j].rxt == ntp.Time64FromTime(rxt) ==> tss[clientID].buf[j].txt == ntp.Time64FromTime(*txt)) && (tss[clientID].buf[j].rxt != ntp.Time64FromTime(rxt) ==> tss[clientID].buf[j].txt == old(tss[clientID].buf[j].txt)))
 //@   ensures dropped: norecord(clientID, ntp.Time64FromTime(rxt), ntp.Time64FromTime(*txt)) ==> (old(tss[clientID].len) == 1 ==> !inmap(tss, clientID)) && (old(tss[clientID].len) != 1 ==> inmap(tss, clientID) && tss[clientID] == old(tss[clientID]) && tss[clientID].len == old(tss[clientID].len)-1 && forall(j, 0, tss[clientID].len, tss[clientID].buf[j].rxt != ntp.Time64FromTime(rxt)))
 //@   ensures others: all(k string, k != clientID ==> inmap(tss, k) == old(inmap(tss, k)) && tss[k] == old(tss[k]))
+
+// ---- the CSPTP listener: whatever datagrams arrive, the receive loop keeps running (no crash) ----
+//@ func runCSPTPServerIP
+//@   noreturn
+//@   noframe
+//@   requires conn != nil && conn.c != nil && log != nil
+//@   loop 0 invariant capof(buf) == 98 && offsetof(buf) == 0 && capof(oob) == 64 && offsetof(oob) == 0
